@@ -248,6 +248,36 @@ CLAIMED = {
         technique="Lean 4 invariants over all schedules of atomic steps; callback-level differential correspondence on a virtual-time loop",
         design="DESIGN.md §5 C19",
     ),
+    "C06": dict(
+        text="Lean 4 theorems (AQ.Props.C06) for every well-formed op sequence (writes/resets/stops on any stream ids, MAX_DATA / "
+             "MAX_STREAM_DATA / MAX_STREAMS / transport parameters incl. remembered 0-RTT limits, stream-loop serves with arbitrary "
+             "flight space, delivery reports, discards): remote_max_data_used = sum of highest offsets over all streams ever created, "
+             "highest <= per-stream limit, sum <= connection limit, every STREAM/RESET_STREAM/STOP_SENDING for a local stream within "
+             "the stream-count limit in force, retransmissions take no credit, MAX_STREAMS releases every allowed blocked stream in "
+             "any creation order, blocked data is offered by the next serve after the limit is raised; counterexample theorems for "
+             "the pre-fix behaviours and for non-monotone transport parameters. Tie: every call of the modelled methods of a real "
+             "QuicConnection (after a real handshake; puppet peer with the real keys, two real endpoints on the adversarial network, "
+             "0-RTT) replayed on the compiled model; wire oracle against the limits the sender had received.",
+        note="Trusted: Lean kernel; standard axioms; harness/impl_flow.py (method wrapping for observation); hypotheses: transport "
+             "parameters do not reduce remembered limits (RFC 9000 7.4.1; not checked by the code), delivery reports only for "
+             "non-blocked streams; retransmit_free and the FIN-only case rest on a C10 sender-buffer invariant taken as hypothesis.",
+        technique="Lean 4 invariants over op sequences; call-level differential correspondence on real connections; wire oracle",
+        design="DESIGN.md §5 C06",
+    ),
+    "C07": dict(
+        text="Lean 4 theorems (AQ.Props.C07), no hypothesis on the peer: FLOW_CONTROL_ERROR / STREAM_LIMIT_ERROR / FINAL_SIZE_ERROR "
+             "are raised if and only if the frame exceeds the limit in force / the stream count / contradicts the fixed final size "
+             "(STREAM and RESET_STREAM; a compliant peer is never accused), the enforced MAX_DATA equals the largest value ever "
+             "written (run level; MAX_STREAM_DATA one-step: stream_enforced_eq_advertised_partial), reassembly bytes <= limits, "
+             "CRYPTO buffering <= 524288, remote challenges <= 32, peer-CID stock and pending retirements bounded. Tie: call-level "
+             "correspondence on real connections with offsets/lengths/final sizes at limit-1, limit, limit+1, 2^62-1 on all stream "
+             "types interleaved with limit updates and unbounded repetition loops; wire oracle against the limits put on the wire.",
+        note="Trusted: Lean kernel; standard axioms; harness/impl_flow.py; the run-level per-stream MAX_STREAM_DATA statement is not "
+             "proved (partial); a final size below data already received is accepted by the code (RFC 9000 4.5 observation, outside "
+             "the property text).",
+        technique="Lean 4 decision-logic iff theorems + invariants over op sequences; call-level differential correspondence; wire oracle",
+        design="DESIGN.md §5 C07",
+    ),
 }
 NOT_YET = "machinery for this property is still under construction in this round (model/proofs/correspondence incomplete); not claimed"
 
